@@ -223,6 +223,22 @@ pub fn cases(tier: &str) -> (Vec<Case>, serde_json::Value) {
     for p in dep {
         cases.push(Case { pos: p, depth: 1, pool: 0, class: "double-en-passant", registered: 0, history: vec![], successors_seen_twice: false });
     }
+    // every depth the interface accepts: fortresses in which each side has exactly one legal move
+    // at every ply (the tree is a single line, so depth 255 costs 255 nodes), and a position with
+    // two moves per side (searched to depth 16: 2^16 lines)
+    for (fen, depths) in [
+        ("5b1k/4p1p1/4P1P1/8/8/4p1p1/4P1P1/5B1K w - - 0 1", vec![4u8, 16, 32, 63, 64, 65, 66, 100, 127, 128, 129, 200, 254, 255]),
+        ("5b1k/4p1p1/4P1P1/8/8/4p1p1/4P1P1/5B1K b - - 0 1", vec![64u8, 65, 255]),
+        ("7k/4p1p1/4P1P1/8/8/4p1p1/4P1P1/7K w - - 0 1", vec![8u8, 16]),
+    ] {
+        let p = Pos::from_fen(fen).unwrap();
+        if !p.is_consistent() {
+            panic!("harness: inconsistent fortress seed {}", fen);
+        }
+        for d in depths {
+            cases.push(Case { pos: p.clone(), depth: d, pool: 0, class: "single-line-fortress", registered: 0, history: vec![], successors_seen_twice: false });
+        }
+    }
     // positions that are drawn on move count or by repetition but still have legal moves
     let mut drawn_cases = 0;
     for name in ["startpos", "kiwipete", "krk", "kpk", "castle-base-w", "ep-legal-both"] {
@@ -355,6 +371,7 @@ pub fn run(a: &Args) -> i32 {
     rep.assumptions = vec!["generators created during these runs use a reduced LRU capacity (hook); answers of a correct cache do not depend on capacity".into(), "a call is considered hung after 600 s".into()];
     rep.mandatory = vec!["outcome_move".into(), "outcome_depth-too-low".into(), "class_checkmated".into(), "class_stalemated".into(), "class_single-legal-move".into(), "class_half-move-clock-near-or-past-100".into(), "class_position-registered-up-to-three-times".into(), "class_game-with-reused-context".into(), "class_all-successors-already-seen-twice".into()];
     rep.mandatory.push("class_double-en-passant".into());
+    rep.mandatory.push("class_single-line-fortress".into());
     rep.finish(&sink)
 }
 
